@@ -158,11 +158,37 @@ def run(tier='quick'):
         else:
             chk.ok(X2, '%s schema_version == name' % short, locstr(prog.records[cls].node))
         ninfo = 0
+        # which attached file each Information row goes to: an unqualified table name is looked up in
+        # attach order (main, then music before perfdata), so it reaches the first file that has the
+        # table at that point of the creation
+        have = {}
+        targets = []
+        attach_order = ['main', 'music', 'perfdata']
         for e in trace:
             st = e.stmt
+            if st.kind == 'create_table':
+                have.setdefault((st.schema or 'main').lower(), set()).add((st.extra['def'].name or '').lower())
             if st.kind == 'insert' and (st.table or '').lower() == 'information':
                 ninfo += 1
                 _check_info_insert(prog, chk, X2, cls, short, ver, e)
+                if st.schema:
+                    targets.append((st.schema.lower(), e))
+                else:
+                    hit = [a for a in attach_order if 'information' in have.get(a, ())]
+                    targets.append((hit[0] if hit else None, e))
+        want_targets = ['music', 'perfdata'] if gen == 1 else ['main']
+        got = sorted(str(a) for a, _ in targets)
+        if ninfo == len(want_targets):
+            if got == sorted(want_targets):
+                chk.ok(X2, '%s: one Information row per database file (%s)' % (short, ', '.join(got)))
+            else:
+                bad = [e for a, e in targets if a not in want_targets or got.count(str(a)) > 1]
+                chk.violation(X2, '%s|information-row-target' % short,
+                              locstr(bad[-1].site.node) if bad else short,
+                              'the creator writes its Information rows to %s, expected one in each of %s: an '
+                              'unqualified table name resolves to the first attached file that has the table, so '
+                              'one file is left without a version row and the library is not recognised on load' % (
+                                  got, want_targets))
         expected_info = 2 if gen == 1 else 1
         if ninfo != expected_info:
             chk.violation(X2, '%s|information-rows' % short, short,
@@ -195,6 +221,7 @@ def run(tier='quick'):
         else:
             chk.ok(X3, 'factory %s -> %s' % (en, cls.split('::')[-1]), locstr(ff.node))
     _check_same_creator(prog, chk, X3)
+    _schema_passthrough(prog, chk, X3)
     return chk.finish(
         'Static comparison of DDL: the statement list each of the %d creator classes executes '
         '(final overriders resolved by class hierarchy, read from the clang AST) is interpreted over '
@@ -299,6 +326,62 @@ def _check_to_string(prog, chk, X2, classes):
                           'to_string(%s) is %r, expected %r' % (short, got, want))
         else:
             chk.ok(X2, 'to_string(%s) = %r' % (short, got), locstr(f.node))
+
+
+def _is_schema_input(p):
+    t = (p.get('type') or '').strip()
+    return 'engine_schema' in t and 'schema_creator' not in t and (t.startswith('const') or '&' not in t)
+
+
+def _schema_passthrough(prog, chk, X3):
+    """The requested version reaches the factory unchanged: a function that receives an
+    engine_schema and calls another function that takes one hands over its own parameter - not a
+    default argument, a constant or another variable."""
+    n_inst = 0
+    for f in list(prog.functions.values()):
+        if f.is_pattern or f.body is None or not prog.in_repo(f.file):
+            continue
+        own = [p.get('id') for p in f.params if _is_schema_input(p)]
+        if not own:
+            continue
+        for n in walk(f.body):
+            if n.get('kind') not in ('CallExpr', 'CXXMemberCallExpr', 'CXXConstructExpr'):
+                continue
+            try:
+                d, q, _, _ = prog.resolve_callee(f.tu, n)
+            except Exception:
+                continue
+            if not q:
+                continue
+            gs = [g for g in prog.by_name(q) if any(_is_schema_input(p) for p in g.params)]
+            if not gs:
+                continue
+            args = children(n) if n['kind'] == 'CXXConstructExpr' else children(n)[1:]
+            cands = [g for g in gs if len(g.params) >= len(args)] or gs
+            g = cands[0]
+            for i, p in enumerate(g.params):
+                if not _is_schema_input(p):
+                    continue
+                short = '%s -> %s' % (f.qualname.replace('djinterop::engine::', ''),
+                                      q.replace('djinterop::engine::', ''))
+                a = args[i] if i < len(args) else None
+                raw = a
+                while raw is not None and raw.get('kind') in ('ImplicitCastExpr', 'ExprWithCleanups',
+                                                              'MaterializeTemporaryExpr', 'CXXBindTemporaryExpr'):
+                    c = children(raw)
+                    raw = c[0] if c else None
+                ref = (strip(a, explicit=True).get('referencedDecl') or {}).get('id') if a is not None else None
+                n_inst += 1
+                if raw is not None and raw.get('kind') != 'CXXDefaultArgExpr' and ref in own:
+                    chk.ok(X3, '%s passes on the engine_schema it received' % short, locstr(n))
+                else:
+                    what = 'the default argument' if a is None or (raw or {}).get('kind') == 'CXXDefaultArgExpr' \
+                        else 'something other than its own engine_schema parameter'
+                    chk.violation(X3, 'schema-passthrough|%s' % short, locstr(n),
+                                  '%s with %s: the version the caller asked for is dropped on the way to the '
+                                  'factory, so a library of another version is created' % (short, what))
+    if n_inst < 10:
+        chk.fail_broken('X3: only %d engine_schema hand-over call(s) found (expected >= 10)' % n_inst)
 
 
 def _check_same_creator(prog, chk, X3):
